@@ -28,6 +28,8 @@ const FAMILIES: &[&[&str]] = &[
     &["l 1", "l 2", "l 3", "l 4", "l 5", "l 6", "l 7", "l 8", "l 9", "l 10", "l 11", "l 12", "l 13", "l 14"],
     &["äpfel", "bär", "çedille", "đak", "école", "ƒunc", "ğöz", "ħal", "ïle", "ĵaro", "ķis", "ļoti", "мир", "ñu"],
     &["a.b", "a+b", "a|b", "a(b", "a[b", "a{b", "a^b", "a$b", "a\\b", "a)b", "a]b", "a}b", "a-b", "a_b"],
+    // near misses: texts that are prefixes / one-byte extensions of each other
+    &["bar", "bar!", "ba", "bar ", "!bar", "barr", "Bar", "bar.", "ar", "b", "bar?", "ba r", "rab", "bar0"],
     &["x (glob)", "x (?)", "x (re)", "x (eq)", "x ()", "x (*)", "x (+)", "x (no-eol)", "x (esc)", "[1]", "$ x", "> x", "# x", "```"],
 ];
 
@@ -43,7 +45,8 @@ fn regex_escape(s: &str) -> String {
 }
 
 fn glob_escape_ok(s: &str) -> bool {
-    !s.contains('*') && !s.contains('?') && !s.contains('\\')
+    // no wildcard, no backslash, and not the `<expr> (escaped) (glob)` form
+    !s.contains('*') && !s.contains('?') && !s.contains('\\') && !s.ends_with(')')
 }
 
 /// Build real expectations whose rules are *intended* to realise the rows `want[k]` (0-based line
@@ -114,6 +117,8 @@ pub fn concretise(
                     _ => {
                         if glob_escape_ok(t) {
                             (t.clone(), "glob")
+                        } else if t.ends_with(')') {
+                            (t.clone(), "equal") // `x (no-eol) (escaped)` has a special meaning
                         } else {
                             (t.replace('\\', "\\\\"), "escaped")
                         }
@@ -326,6 +331,17 @@ fn run_jobs(jobs: Vec<Job>, records: &str, steps_path: Option<String>) {
     for (i, r) in results.into_iter().enumerate() {
         let rec = match r {
             Guarded::Ok(mut rec) => {
+                // the intended matrix is, by construction, what the *documented* meaning of the generated
+                // expectations gives; when the real rules realise something else, the same result is
+                // also judged against the documented matrix (a second, "oracle" record)
+                if rec["as_intended"] == json!(false) {
+                    let mut o = rec.clone();
+                    o["M"] = rec["job"]["M"].clone();
+                    o["id"] = json!(rec["id"].as_u64().unwrap() + 5_000_000);
+                    o["oracle"] = json!(true);
+                    o.as_object_mut().unwrap().remove("steps");
+                    w.write(&o);
+                }
                 let steps = rec.as_object_mut().unwrap().remove("steps").unwrap_or(json!([]));
                 if let (Some(sw), Some(arr)) = (sw.as_mut(), steps.as_array()) {
                     if !arr.is_empty() {
